@@ -18,6 +18,18 @@ macro_rules! common_list {
             "unbounded_shr" => a.unbounded_shr(s),
             "rotate_left" => a.rotate_left(s),
             "rotate_right" => a.rotate_right(s),
+            "shl_i32" => i32::try_from(s).ok().map(|k| a << k),
+            "shr_i32" => i32::try_from(s).ok().map(|k| a >> k),
+            "shl_usize" => usize::try_from(s).ok().map(|k| a << k),
+            "shr_usize" => usize::try_from(s).ok().map(|k| a >> k),
+            "shl_i64" => Some(a << (s as i64)),
+            "shr_i64" => Some(a >> (s as i64)),
+            "shl_u128" => Some(a << (s as u128)),
+            "shr_u128" => Some(a >> (s as u128)),
+            "shl_u8" => u8::try_from(s).ok().map(|k| a << k),
+            "shr_u8" => u8::try_from(s).ok().map(|k| a >> k),
+            "shl_i16" => i16::try_from(s).ok().map(|k| a << k),
+            "shr_i16" => i16::try_from(s).ok().map(|k| a >> k),
             "rotl_then_rotr" => a.rotate_left(s).rotate_right(s),
             "rotr_then_rotl" => a.rotate_right(s).rotate_left(s),
         }
